@@ -506,10 +506,14 @@ def replay_range_counterexample(ir_opt, msg):
 def rewrite_family(ir_opt, tier, out):
     from . import c02
 
-    res = c02.run_family("cast_pair", tier)
-    out["rewrite"] = res["summary"]
-    out["samples"].extend(res["samples"][:2])
-    return res["violations"]
+    viol = []
+    out["rewrite"] = {}
+    for fam in ("cast_pair", "range_cast"):
+        res = c02.run_family(fam, tier)
+        out["rewrite"][fam] = res["summary"]
+        out["samples"].extend(res["samples"][:2])
+        viol += res["violations"]
+    return viol
 
 
 def main(tier):
